@@ -171,18 +171,22 @@ where
         if let Ok(p2) = serde_json::from_value::<PoKSignature<CL03<CS>>>(j) {
             reject("range-proof-e-for-another-commitment", ver(&p2, &h.cpk, pk, &h.bases, &h.revealed, &hidden, n), "honest range proof over a different commitment".into())?;
         }
+        // ... and the same range proof transplanted onto the commitment Ce of this proof
+        let params = crate::props::c16::Params { n: h.cpk.N.clone(), g: h.cpk.g_bases[0].clone(), h: h.cpk.h.clone(), id: String::new() };
+        let ce = int_of(&pj["CL03"]["spok"]["Ce"]["value"]).unwrap();
+        for ow in [false, true] {
+            let tj = crate::props::c16::transplant(&params, &serde_json::to_value(&rp).unwrap(), &ce, &min_e, &max_e, ow);
+            let mut j = pj.clone();
+            j["CL03"]["range_proof_e"] = tj;
+            if let Ok(p2) = serde_json::from_value::<PoKSignature<CL03<CS>>>(j) {
+                reject("range-proof-e-transplanted-onto-Ce", ver(&p2, &h.cpk, pk, &h.bases, &h.revealed, &hidden, n), format!("sub-proofs of a range proof for another value, E := Ce (square E overwritten: {})", ow))?;
+            }
+        }
     }
     // every integer leaf
     let leaves = int_leaves(&pj);
-    let mut edits: Vec<(usize, u8)> = (0..leaves.len()).flat_map(|li| (0..4u8).map(move |e| (li, e))).collect();
-    let total = edits.len();
-    if c.leaf_edits != 0 && c.leaf_edits < total {
-        for i in 0..c.leaf_edits {
-            let j = i + (splitmix(&mut st) as usize) % (total - i);
-            edits.swap(i, j);
-        }
-        edits.truncate(c.leaf_edits);
-    } else {
+    let edits = pick_edits(&leaves, c.leaf_edits, &mut st);
+    if c.leaf_edits == 0 || c.leaf_edits >= leaves.len() * 4 {
         rep.exhaustive("every integer leaf of a signature proof x {+1, -1, 0, sibling}".into());
     }
     for (li, e) in edits {
